@@ -69,6 +69,12 @@ CLAIMS = {
         technique='completeness of the lifted compression relation against the RVC oracle (exhaustive over legal operand tuples); per-path monotone-size rule; pipeline order',
         text='Every 32-bit instruction equal to the expansion of a legal non-hint RV32C instruction (all register choices x all legal immediates, both spellings of lui) satisfies some criteria rule; on every path of every pass emitted bytes <= consumed bytes and label shifts >= 0; a compression round follows pseudo expansion.',
         note='Not decided: "never longer" for whole programs with align needs monotonicity of rounding up (outside the code). Trusted: CPython ast, bbverif comprel/pathwalk, RVC oracle.'),
+    'C05': dict(
+        category='other', design='DESIGN.md §4 C05',
+        technique='expansion templates from symbolic path summaries of the pseudo pass vs. ISA pseudo-instruction table and the parsed documentation table; %hi/%lo pairing and guard-width rules',
+        text='For each of the 27 pseudo-instructions the expansion template (base mnemonic, constant registers/immediates, which pseudo operand feeds which field) is derived from the code on every path and compared with the standard table and with docs/instruction_reference.rst; '
+             'li/call/tail: guard width vs. consumer, %hi/%lo of the same expression with chained registers, documented link/scratch registers, full offset in the near form. With C01 and C07 the documented effect follows for all operands and values.',
+        note='Not decided: execution of the emitted code against an independent ISA semantics. Trusted: CPython ast, bbverif pathwalk, ISA pseudo table; verdicts of C01/C07 for the base instructions.'),
 }
 
 NOT_YET = 'check not built yet (framework under construction)'
